@@ -8,6 +8,7 @@ import (
 
 	"github.com/shopspring/decimal"
 	"github.com/tyler-sommer/stick"
+	"github.com/tyler-sommer/stick/twig"
 
 	"verif/core"
 )
@@ -462,6 +463,16 @@ func c06Levels(tier string) []core.Level {
 				}
 			}
 		}},
+		{Name: "histories: top-level loops (loop.parent absent, a saved loop, a host function looking for loop.parent) after nested loops ran in the process; every built-in Twig filter applied to a host sequence (5 carriers) before it is iterated, in two consecutive executions: the filter leaves its operand as it was", Gen: func(emit func(core.Case)) {
+			for k := 0; k < 3; k++ {
+				emit(core.Case{Fam: "afternested", N: []int{k}})
+			}
+			for fi := range c02FilterNames() {
+				for car := 0; car < 5; car++ {
+					emit(core.Case{Fam: "hostseq", N: []int{fi, car}})
+				}
+			}
+		}},
 		{Name: "loops inside branches and branches inside loops (depth 3 mixes)", Gen: func(emit func(core.Case)) {
 			for n := 0; n <= 3; n++ {
 				for m := 0; m < 1<<uint(n+1); m++ {
@@ -554,8 +565,90 @@ func c06LitChain(idx []int, hasElse bool, form int) core.Result {
 	return core.Okay(true, out)
 }
 
+// c06AfterNested: loops executed one after the other in one process (fresh environments): nested loops first, then a
+// top-level loop that looks for loop.parent (there is none), a loop saved in a variable and read after another loop.
+func c06AfterNested(k int) core.Result {
+	warm := []string{
+		"{% for o in [1, 2] %}{% for i in [7, 8, 9] %}{{ loop.parent.index }}{{ loop.index }}{% endfor %}{% endfor %}",
+		"{% for a in [1] %}{% for b in [1, 2] %}{% for c in [1, 2, 3] %}{{ loop.parent.parent.index }}{% endfor %}{% endfor %}{% endfor %}",
+		"{% for k, v in {'x': 1, 'y': 2} %}{% for i in 1..4 %}{{ i }}{% endfor %}{% endfor %}",
+	}[k%3]
+	for i := 0; i < 5; i++ {
+		if _, err, pan := c06Exec(warm, nil); err != nil || pan != "" {
+			return core.Violation("error", fmt.Sprintf("%q: %v %s", warm, err, pan))
+		}
+	}
+	probes := []struct{ src, want string }{
+		{"{% for x in [5, 6] %}[{{ loop.index }}:{{ loop.parent.index }}{{ loop.parent }}]{% endfor %}", "[1:][2:]"},
+		{"{% set saved = 0 %}{% for x in ['a', 'b', 'c'] %}{% if loop.last %}{% set saved = loop %}{% endif %}{% endfor %}{% for y in 1..5 %}{% endfor %}{{ saved.index }}/{{ saved.length }}", "3/3"},
+		{"{% for x in [1] %}{{ hasparent() }}{% endfor %}|{% for o in [1] %}{% for i in [1] %}{{ hasparent() }}{% endfor %}{% endfor %}", "no|yes"},
+	}
+	for _, p := range probes {
+		env := stick.New(nil)
+		env.Functions["hasparent"] = func(ctx stick.Context, args ...stick.Value) stick.Value {
+			l, _ := ctx.Scope().Get("loop")
+			if m, ok := l.(map[string]stick.Value); ok {
+				if _, has := m["parent"]; has {
+					return "yes"
+				}
+			}
+			return "no"
+		}
+		out, err, pan := tryExec(env, p.src, nil)
+		if pan != "" || err != nil || out != p.want {
+			return core.Violation("output", fmt.Sprintf("after %q was executed 5 times in this process, %q renders %q (%v %s), want %q", warm, p.src, out, err, pan, p.want))
+		}
+	}
+	return core.Okay(true, "after-nested")
+}
+
+// c06HostSeq (Twig environment): applying a built-in filter to a sequence of the host (or to a template variable) does
+// not change it: the loop over it afterwards, in this execution and in the next one with the same host value, visits
+// the elements in their order.
+func c06HostSeq(fi, carrier int) core.Result {
+	f := c02FilterNames()[fi]
+	mk := func() stick.Value {
+		switch carrier {
+		case 0:
+			return []string{"a", "b", "c", "d"}
+		case 1:
+			return []stick.Value{"a", "b", "c", "d"}
+		case 2:
+			return append(make([]stick.Value, 0, 16), "a", "b", "c", "d")
+		case 3:
+			return &[]string{"a", "b", "c", "d"}
+		default:
+			return [4]string{"a", "b", "c", "d"}
+		}
+	}
+	xs := mk()
+	src := "{% set t = xs|" + f + " %}{% set u = xs|" + f + "|" + f + " %}{% for x in xs %}{{ loop.index }}={{ x }},{% endfor %}|{% for o in [1, 2] %}{% for x in xs|" + f + " %}{% endfor %}{% for x in xs %}{{ x }}{% endfor %};{% endfor %}"
+	want := "1=a,2=b,3=c,4=d,|abcd;abcd;"
+	env := twig.New(nil)
+	for round := 1; round <= 2; round++ {
+		out, err, pan := tryExec(env, src, map[string]stick.Value{"xs": xs})
+		if pan != "" {
+			return core.Violation("panic", fmt.Sprintf("%q panicked: %s", src, pan))
+		}
+		if err != nil {
+			return core.Okay(false, "filter-refuses-the-operand")
+		}
+		if out != want {
+			return core.Violation("output", fmt.Sprintf("execution %d of %q with xs = %T(a b c d) renders %q, want %q (a filter does not reorder or change its operand)", round, src, xs, out, want))
+		}
+	}
+	if fmt.Sprint(xs) != fmt.Sprint(mk()) && carrier != 3 {
+		return core.Violation("output", fmt.Sprintf("after %q the host's value is %v, it was %v", src, xs, mk()))
+	}
+	return core.Okay(true, f)
+}
+
 func c06Run(c core.Case) core.Result {
 	switch c.Fam {
+	case "afternested":
+		return c06AfterNested(c.N[0])
+	case "hostseq":
+		return c06HostSeq(c.N[0], c.N[1])
 	case "litchain":
 		return c06LitChain(c.N[2:], c.N[0] == 1, c.N[1])
 	case "tpl":
